@@ -27,7 +27,7 @@ void final_report() {
 
 // ------------------------------------------------------------------ items with a large HLL value (aux exceptions)
 // value of an item = leading zeros of h2 + 1; an HLL_4 slot needs an exception when value - curMin >= 15
-struct HighItems { std::vector<uint64_t> v16, v22; };
+struct HighItems { std::vector<uint64_t> v16, v22, v32; };
 static const HighItems& high_items() {
   static HighItems H;
   if (H.v16.empty()) {
@@ -37,6 +37,11 @@ static const HighItems& high_items() {
       if (lz >= 21 && H.v22.size() < 3) H.v22.push_back(x);
       else if (lz >= 15 && lz < 21 && H.v16.size() < 40) H.v16.push_back(x);
       if (x > 0x51ed27ULL + 40000000ULL) break;
+    }
+    // items whose value is 32 (kxq1 accumulator, 6-bit range): found by an offline search, verified here
+    for (uint64_t x : {0x70707acc14ULL, 0x70924dd088ULL, 0x70929ccd91ULL}) {
+      const H128 h = ref_hash_u64(x, DEFAULT_SEED);
+      if (h.h2 != 0 && __builtin_clzll(h.h2) >= 31) H.v32.push_back(x);
     }
   }
   return H;
@@ -105,7 +110,7 @@ static void case_hll(Rng& r) {
   uint8_t lg_k = static_cast<uint8_t>(r.chance(0.5) ? r.range(4, 7) : r.range(8, T ? 13 : 11));
   const bool full = r.chance(0.1);
   const uint64_t k = 1ULL << lg_k;
-  const unsigned cls = static_cast<unsigned>(r.below(12));
+  const unsigned cls = static_cast<unsigned>(r.below(13));
   std::string desc;
   std::unique_ptr<hll_sketch> sk(new hll_sketch(lg_k, type, full));
   const uint64_t base = r.next() >> 8;
@@ -127,6 +132,8 @@ static void case_hll(Rng& r) {
     case 7: n = 2 * k + r.below(30 * k); desc = "hll-dense"; break;         // curMin > 0 for small k
     case 8: n = r.below(k / 2 + 1); hll_fill(*sk, n, base); inject(1 + static_cast<unsigned>(r.below(4)), false); n = 0; desc = "hll-aux-few"; break;
     case 9: n = r.below(k + 1); hll_fill(*sk, n, base); inject(5 + static_cast<unsigned>(r.below(30)), false); n = 0; desc = "hll-aux-many"; break;
+    case 11: { n = r.chance(0.3) ? r.below(6) : r.below(4 * k); hll_fill(*sk, n, base); const HighItems& H = high_items();
+               for (size_t i = 0; i < H.v32.size() && i <= r.below(3); ++i) sk->update(H.v32[i]); n = 0; desc = "value-32"; if (!H.v32.empty()) count("hll_state_with_value_32"); break; }
     case 10: n = 20 * k + r.below(40 * k); hll_fill(*sk, n, base); inject(1 + static_cast<unsigned>(r.below(3)), true); n = 0; desc = "hll-curmin-aux"; break;
     default: {
       // union result (out-of-order flag), possibly with a different lg_k / type
@@ -142,7 +149,7 @@ static void case_hll(Rng& r) {
     }
   }
   hll_fill(*sk, n, base);
-  if (cls <= 10 && r.chance(0.1)) { sk.reset(new hll_sketch(*sk, static_cast<target_hll_type>(r.below(3)))); desc += " converted"; }
+  if (cls <= 11 && r.chance(0.1)) { sk.reset(new hll_sketch(*sk, static_cast<target_hll_type>(r.below(3)))); desc += " converted"; }
   const target_hll_type ty = sk->get_target_type();
   describe(std::string("hll ") + type_name(ty) + " lg_k=" + std::to_string(lg_k) + " full=" + std::to_string(full) + " " + desc + " n=" + std::to_string(n));
   const std::string ctx = G().cur_desc;
@@ -189,6 +196,7 @@ static void case_hll(Rng& r) {
       const uint64_t b2 = cr.next() >> 8;
       for (uint64_t i = 0; i < m; ++i) s.update(b2 + i);
       if (cr.chance(0.3)) s.update(high_items().v16[cr.below(40)]);
+      if (cr.chance(0.1) && !high_items().v32.empty()) s.update(high_items().v32[cr.below(high_items().v32.size())]);
       if (cr.chance(0.4)) {
         hll_sketch other(static_cast<uint8_t>(cr.range(4, 12)), static_cast<target_hll_type>(cr.below(3)));
         const uint64_t m2 = cr.below(2 * k);
